@@ -16,6 +16,10 @@ use serde::{Deserialize, Serialize};
 pub enum Surface {
     Noise,
     Aead,
+    /// key_decrypt on the key-mode magic followed by arbitrary bytes
+    KeyFile,
+    /// pass_decrypt on the password-mode magic followed by arbitrary bytes (>= 32 of them cost one scrypt)
+    PassFile,
 }
 
 #[derive(Serialize, Deserialize, Clone, Debug, PartialEq)]
@@ -67,6 +71,9 @@ fn authentic(s: &Scn) -> Authentic {
             rn::write_x(&prologue, &s_priv, &rp::x25519_base(&s_priv), &e_priv, &rp::x25519_base(&e_priv), &rp::x25519_base(&r_priv), &payload).message
         }
         Surface::Aead => rp::seal(&key, &nonce, &aad, &pt),
+        // the "authentic message" of the file surfaces is just the magic: everything behind it is arbitrary
+        Surface::KeyFile => vec![0x65, 0x67, 0x6b, 0x10],
+        Surface::PassFile => vec![0x65, 0x67, 0x6b, 0x20],
     };
     Authentic { msg, r_priv, prologue, key, nonce, aad, pt, sender: rp::x25519_base(&s_priv) }
 }
@@ -106,11 +113,24 @@ impl A8 {
                 kestrel_crypto::noise_decrypt(&r, &rpk, &a.prologue, &msg).map(|m| m.public_key.as_bytes().to_vec()).map_err(|e| e.to_string())
             }),
             Surface::Aead => run_guarded(|| kestrel_crypto::chapoly_decrypt_ietf(&a.key, &a.nonce, &msg, &a.aad).map_err(|e| e.to_string())),
+            Surface::KeyFile => run_guarded(|| {
+                let r = PrivateKey::try_from(&a.r_priv[..]).unwrap();
+                let rpk = PublicKey::try_from(&rp::x25519_base(&a.r_priv)[..]).unwrap();
+                let mut sink = Vec::new();
+                kestrel_crypto::decrypt::key_decrypt(&mut &msg[..], &mut sink, &r, &rpk, kestrel_crypto::AsymFileFormat::V1).map(|p| p.as_bytes().to_vec()).map_err(|e| e.to_string())
+            }),
+            Surface::PassFile => run_guarded(|| {
+                let mut sink = Vec::new();
+                kestrel_crypto::decrypt::pass_decrypt(&mut &msg[..], &mut sink, b"garbage-file-password", kestrel_crypto::PassFileFormat::V1).map(|_| sink).map_err(|e| e.to_string())
+            }),
         };
         let surf = match s.surface {
             Surface::Noise => "noise_decrypt",
             Surface::Aead => "chapoly_decrypt_ietf",
+            Surface::KeyFile => "key_decrypt",
+            Surface::PassFile => "pass_decrypt",
         };
+        let file_surface = matches!(s.surface, Surface::KeyFile | Surface::PassFile);
         let class;
         match g {
             Guarded::Panicked(m) => {
@@ -126,6 +146,7 @@ impl A8 {
                 let right = match s.surface {
                     Surface::Noise => v == a.sender,
                     Surface::Aead => v == a.pt,
+                    _ => false,
                 };
                 if !is_authentic || !right {
                     out.violations.push(viol("C09", &format!("accepted_{}", surf), format!("surface={}: a modified message ({:?}) was accepted, or the authentic one opened to the wrong value", surf, short(&s.mutn))));
@@ -133,7 +154,7 @@ impl A8 {
             }
             Guarded::Returned(Err(e)) => {
                 class = "err";
-                if is_authentic {
+                if is_authentic && !file_surface {
                     out.violations.push(viol("C09", &format!("authentic_rejected_{}", surf), format!("surface={}: the authentic message was rejected: {}", surf, e)));
                 }
             }
@@ -189,7 +210,12 @@ impl Family for A8 {
         }
     }
     fn generate(&self, rng: &mut Rng, _tier: Tier, idx: u64) -> Scn {
-        let surface = if idx % 2 == 0 { Surface::Noise } else { Surface::Aead };
+        let surface = match idx % 8 {
+            0 | 2 | 4 => Surface::Noise,
+            1 | 3 | 5 => Surface::Aead,
+            6 => Surface::KeyFile,
+            _ => Surface::PassFile,
+        };
         let enumerate = idx < 40 || rng.chance(1, 3);
         let pt_len = *rng.pick(&[0usize, 1, 15, 16, 17, 32, 100]);
         let aad_len = *rng.pick(&[0usize, 4, 12, 40]);
@@ -221,6 +247,21 @@ impl Family for A8 {
             let out = self.judge(&s, &a);
             emit(s, out);
         };
+        if matches!(base.surface, Surface::KeyFile | Surface::PassFile) {
+            // the magic followed by every length 0..200 of arbitrary bytes (password mode: beyond 31 bytes
+            // each case costs one scrypt evaluation, so only up to 40 there)
+            let top = if base.surface == Surface::PassFile { 40 } else { 200 };
+            let mut r = Rng::new(base.seed ^ 0xF11E);
+            for n in 0..=top {
+                one(Mutn::Extend(Hx(vec![0u8; n])));
+                one(Mutn::Extend(Hx(vec![0xffu8; n])));
+                one(Mutn::Extend(Hx(r.bytes(n))));
+            }
+            for n in 0..4 {
+                one(Mutn::Truncate(n));
+            }
+            return;
+        }
         one(Mutn::None);
         // truncation at every offset, every single-bit flip, extension, constant strings of every length
         for n in 0..a.msg.len() {
